@@ -934,6 +934,15 @@ class Sym:
                 x = scalarize(self.ev(args[0], env)) if args else TOP
                 v.assign(x if isinstance(x, Aff) else TOP)
             return o
+        if name == "cross" and args:
+            m = v.mat()
+            mb = as_mat(self.ev(args[0], env))
+            if mb is not None and m.R * m.C == 3 and mb.R * mb.C == 3:
+                a, b = m.cells, mb.cells
+                t = Mat(3, 1)
+                t.cells = [aadd(amul(a[1], b[2]), amul(a[2], b[1]), -1), aadd(amul(a[2], b[0]), amul(a[0], b[2]), -1), aadd(amul(a[0], b[1]), amul(a[1], b[0]), -1)]
+                return t
+            return Mat.top(3, 1)
         if name == "transpose":
             m = v.mat()
             t = Mat(m.C, m.R)
